@@ -315,7 +315,7 @@ impl Prop for C10 {
          handshake+status+ping ..., retry count r in 0..3 (quick) / 0..5 (thorough)). Within the unit every send may fail and every pending reply may \
          be delivered, dropped (silence) or replaced by a malformed reply (2-4 shapes per format, see assumptions); ALL such outcome sequences are enumerated (the tree is finite \
          because attempts are bounded), the other units are answered validly; for the multi-request exchanges (Valve, Unreal 2) also \
-         all sequences of timeout-class faults in EVERY unit of one query (r <= 2 quick / 3 thorough): each request has its own r+1 attempts. Reference model: attempts continue exactly \
+         all sequences of timeout-class faults in EVERY unit of one query (r <= 2 quick / 3 thorough): each request has its own r+1 attempts. Every attempt of a unit must open with the same bytes. Below an execution that has already left the reference model the tree is not expanded. Reference model: attempts continue exactly \
          while the previous attempt was timeout-class (nothing received / could not send) and fewer than r+1 were made; never \
          after a malformed reply; first valid attempt => result identical to the fault-free result; malformed => error of a \
          non-timeout kind; all r+1 timeout-class => PacketReceive / PacketSend error. distinct_nontrivial = distinct (outcome \
@@ -373,7 +373,8 @@ impl Prop for C10 {
         let r = case.retries;
         explore(
             ctx,
-            &ExploreCfg::all(),
+            // (no case of the unchanged tree comes near the cap; it is a safety net for trees that a defect makes large)
+            &ExploreCfg { bound: usize::MAX, max_execs: 2_000_000 },
             |prefix| {
                 let delivered = std::sync::Arc::new(std::sync::Mutex::new(Vec::new()));
                 let policy = Faults {
@@ -430,6 +431,9 @@ impl Prop for C10 {
                             }
                         }
                         Some((kind, detail)) => {
+                            // (the reference model is already left: what follows such an execution adds nothing, and with a
+                            // broken attempt bound the tree below it is no longer small)
+                            ctx.prune_children = true;
                             ctx.violation(
                                 format!("retry:{kind}:{tag}"),
                                 &x.choices(),
@@ -484,6 +488,7 @@ impl Prop for C10 {
                         }
                     }
                     Some((kind, detail)) => {
+                        ctx.prune_children = true;
                         ctx.violation(
                             format!("retry:{kind}:{tag}:unit{}", case.unit),
                             &x.choices(),
